@@ -1042,6 +1042,8 @@ class Simulation:
                 warnings.warn(f'changed output filename to {new_out_fn!s}')
                 self.output_filename = out_fn = new_out_fn
                 self._backup_filename = self.get_backup_filename(out_fn)
+                # remember the new name: a simulation resumed from a checkpoint has to write to the same file
+                self.options['output_filename'] = str(new_out_fn)
             # else: overwrite stuff in `save_results`
             if overwrite_output and not self.loaded_from_checkpoint:
                 # move logfile to *.backup.log
